@@ -495,6 +495,11 @@ def run_property(pid, P, tier, seed, scr, logdir, a, t0):
                             solver=r.get("solver"), status=r["status"], detail=r["detail"], secs=round(r["secs"], 2),
                             cbmc_checks=r.get("n_checks", 0)))
         log("  %-11s %-60s %7.1fs %s" % (r["status"], ob["h"].split("::")[-1], r["secs"], r["detail"][:100]))
+    extraction = []
+    for v, r in zip(vobs, vres):
+        extraction += ["%s: %s" % (v["name"], e) for e in r.get("edits", [])]
+        extraction += ["%s: outlined statement `%s`" % (v["name"], s) for s in r.get("outlined", [])]
+    P = dict(P, _extraction=extraction)
     for v, r in zip(vobs, vres):
         for it in r["items"]:
             records.append(dict(obligation="verus:%s:%s" % (v["name"], it["name"]), clause=it.get("clause", ""),
@@ -655,6 +660,7 @@ def write_evidence(pid, P, tier, seed, records, bounded, wall, violations=0, not
                                    detail=b.get("detail")) for b in bounded],
         "deferred_to_thorough": deferred or [],
         "not_admitted": P.get("not_admitted", []),
+        "verus_extraction_edits": P.get("_extraction", []),
         "samples": [dict(obligation=r["obligation"], clause=r["clause"], status=r["status"]) for r in records[:6]],
         "explanation": P.get("explanation", ""),
         "evaluations": sum(int(b.get("evaluations") or 0) for b in bounded) + n,
